@@ -55,7 +55,7 @@ class StrictLeg(object):
         @st.composite
         def case(draw):
             d = draw(S.dialect)
-            rec = draw(S.record(d["style"], min_n=0, max_n=5))
+            rec = draw(S.record(d["style"], min_n=0, max_n=5, empty_items=not d["repeated"]))
             return {"dialect": d, "rec": rec}
 
         return case()
@@ -107,6 +107,21 @@ class StrictLeg(object):
             bad.msg = "after printing: " + bad.msg
             bad.sig["kind"] = "attributes-after-print"
             return bad
+        # features parsed from separate calls are independent objects: editing one (its dialect, its attributes)
+        # does not change how the other prints
+        g = feature_from_line(line, keep_order=True)
+        h = feature_from_line(line, keep_order=True)
+        if isinstance(h.dialect, dict):
+            h.dialect["trailing semicolon"] = not h.dialect.get("trailing semicolon")
+            h.dialect["field separator"] = " ; " if h.dialect.get("field separator") != " ; " else ";"
+        h.attributes["added_later"] = ["1"]
+        if str(g) != line:
+            return Failure("editing one parsed Feature changed how another Feature parsed from the same text prints: %r" % str(g),
+                           sig={"kind": "shared-state"})
+        k = feature_from_line(line, keep_order=True)
+        if str(k) != line or "added_later" in k.attributes:
+            return Failure("a later parse of the same text is affected by edits to an earlier result: %r" % str(k),
+                           sig={"kind": "shared-state"})
         # a trailing line break is not part of the line
         for nl in ("\n", "\r\n"):
             g = feature_from_line(line + nl, keep_order=True)
